@@ -1,8 +1,25 @@
 (* Pinned statements of C13 (generated once by tools/mkpins.py from coq/props/C13.v, then committed). *)
 From DV Require Import Model.Base Model.Parser Model.Header Model.Readers Model.Uncompress Model.Mutate
-  Model.Gen Model.Text Proofs.Hoare Proofs.SynthTotal props.C13.
+  Model.Gen Model.Text Spec.NameSpec Proofs.Hoare Proofs.SynthTotal Proofs.NameText Proofs.SynthShape props.C13.
 Check (C13_synth_total : forall s : bytes, nopanic (rr_from_string s)).
 Print Assumptions C13_synth_total.
 Check (C13_synth_result_cases : forall s : bytes,
   (exists rr, rr_from_string s = Ok rr) \/ (exists e, rr_from_string s = Err e)).
 Print Assumptions C13_synth_result_cases.
+Check (C13_result_well_formed : forall s rr, rr_from_string s = Ok rr -> rr_shape rr).
+Print Assumptions C13_result_well_formed.
+Check (C13_txt : forall n ttl txt rr, build_txt n ttl txt = Ok rr ->
+  exists cs, concat cs = txt /\ txt_chunks cs /\ rr_shape_with rr TYPE_TXT (strings_wire cs)).
+Print Assumptions C13_txt.
+Check (C13_name_rr : forall t n ttl tg rr, build_name_rr t n ttl tg = Ok rr ->
+  exists ls, Forall tlabel_ok ls /\ rr_shape_with rr t (wire_of_labels ls)).
+Print Assumptions C13_name_rr.
+Check (C13_mx : forall n ttl pref h rr, build_mx n ttl pref h = Ok rr ->
+  exists ls, Forall tlabel_ok ls /\ rr_shape_with rr TYPE_MX (be16_bytes pref ++ wire_of_labels ls)).
+Print Assumptions C13_mx.
+Check (C13_soa : forall n ttl a b ts refresh retry auth neg rr,
+  build_soa n ttl a b ts refresh retry auth neg = Ok rr ->
+  exists ls1 ls2, Forall tlabel_ok ls1 /\ Forall tlabel_ok ls2 /\
+    rr_shape_with rr TYPE_SOA (wire_of_labels ls1 ++ wire_of_labels ls2 ++ be32_bytes ts ++ be32_bytes refresh ++
+                               be32_bytes retry ++ be32_bytes auth ++ be32_bytes neg)).
+Print Assumptions C13_soa.
